@@ -63,6 +63,11 @@ AddSampleM(m, k, vnew) ==
   LET post == [m.slots EXCEPT ![k] = Slot(m.slots[k].en, m.slots[k].ns + 1, vnew)]
   IN  [m EXCEPT !.slots = post, !.kopt = ArgMinRule(post, m.kopt)]
 
+\* n-1 further samples added in one step (the mean's objective vnew is an environment input)
+AddSampleN(m, k, vnew, n) ==
+  LET post == [m.slots EXCEPT ![k] = Slot(m.slots[k].en, n, vnew)]
+  IN  [m EXCEPT !.slots = post, !.kopt = ArgMinRule(post, m.kopt)]
+
 \* model.add_new_point(x, rvec, eval_num)  (soft restarts with increasing npt)
 AddPointM(m, v, en) ==
   LET post == Append(m.slots, Slot(en, 1, v))
